@@ -828,6 +828,9 @@ func c11TargetType(c *Ctx, br *callBridge) {
 	// the shift: phi(0,1) controlled by the context flag
 	fixedOK, tailOK := false, false
 	var tailBoundary ssa.Value
+	var tailLin map[string]int64
+	var tailConst int64
+	haveLin := false
 	// candidates: every call the target type can come from (through nested phis, e.g. an element type looked up once
 	// before the loop and selected per argument)
 	var cands []ssa.Value
@@ -887,6 +890,22 @@ func c11TargetType(c *Ctx, br *callBridge) {
 					if _, isLen := bo.Y.(*ssa.Call); !isLen { // not the loop's own `i < len(args)`
 						tailBoundary = bo.Y
 					}
+				} else if ok && (bo.Op == token.GEQ || bo.Op == token.LSS) && tailBoundary == nil {
+					// `i + shift >= NumIn()-1`: the same boundary with the shift on the other side
+					if lx, kx := linearForm(bo.X); lx[linKey(idx)] == 1 {
+						ly, ky := linearForm(bo.Y)
+						if _, isLen := bo.Y.(*ssa.Call); !isLen || len(ly) != 1 {
+							tailLin, tailConst, haveLin = map[string]int64{}, ky-kx, true
+							for k, v := range ly {
+								tailLin[k] += v
+							}
+							for k, v := range lx {
+								if k != linKey(idx) {
+									tailLin[k] -= v
+								}
+							}
+						}
+					}
 				}
 			})
 		}
@@ -895,6 +914,31 @@ func c11TargetType(c *Ctx, br *callBridge) {
 	c.R.Check(rule, "variadic-tail", pos, tailOK, "the target type of a variadic-tail argument must be In(NumIn()-1).Elem()")
 	// the boundary equals the lower-bound arity test's right-hand side: minArgsCount-1
 	same := false
+	if tailBoundary == nil && haveLin {
+		instrs(h, func(b *ssa.BasicBlock, i int, in ssa.Instruction) {
+			bo, ok := in.(*ssa.BinOp)
+			if !ok || bo.Op != token.LSS {
+				return
+			}
+			if lc, ok := bo.X.(*ssa.Call); ok && isBuiltinCall(lc, "len") {
+				ly, ky := linearForm(bo.Y)
+				eq := ky == tailConst
+				for k, v := range ly {
+					if tailLin[k] != v {
+						eq = false
+					}
+				}
+				for k, v := range tailLin {
+					if v != 0 && ly[k] != v {
+						eq = false
+					}
+				}
+				if eq {
+					same = true
+				}
+			}
+		})
+	}
 	if tailBoundary != nil {
 		instrs(h, func(b *ssa.BasicBlock, i int, in ssa.Instruction) {
 			bo, ok := in.(*ssa.BinOp)
@@ -1662,4 +1706,50 @@ func (c *Ctx) walkEdge(b *ssa.BasicBlock, k int, r *FoldResult, avoid ssa.Instru
 		}
 	}
 	return walk(b, b.Succs[k], start, 0, 0)
+}
+
+// linearForm writes an integer expression as a sum of atoms with integer coefficients plus a constant (through +, -
+// and conversions); anything else is an atom. Method calls through an interface on the same receiver are one atom.
+func linearForm(v ssa.Value) (map[string]int64, int64) {
+	out := map[string]int64{}
+	var k int64
+	var add func(x ssa.Value, sign int64, depth int)
+	add = func(x ssa.Value, sign int64, depth int) {
+		if n, ok := constIntArg(x); ok {
+			k += sign * n
+			return
+		}
+		switch y := x.(type) {
+		case *ssa.BinOp:
+			if depth < 6 && (y.Op == token.ADD || y.Op == token.SUB) {
+				add(y.X, sign, depth+1)
+				if y.Op == token.ADD {
+					add(y.Y, sign, depth+1)
+				} else {
+					add(y.Y, -sign, depth+1)
+				}
+				return
+			}
+		case *ssa.Convert:
+			if isIntType(y.Type()) && isIntType(y.X.Type()) {
+				add(y.X, sign, depth+1)
+				return
+			}
+		}
+		out[linKey(x)] += sign
+	}
+	add(v, 1, 0)
+	for a, c := range out {
+		if c == 0 {
+			delete(out, a)
+		}
+	}
+	return out, k
+}
+
+func linKey(v ssa.Value) string {
+	if call, ok := v.(*ssa.Call); ok && call.Call.IsInvoke() && len(call.Call.Args) == 0 {
+		return fmt.Sprintf("%s@%p", call.Call.Method.Name(), call.Call.Value)
+	}
+	return fmt.Sprintf("%p", v)
 }
